@@ -429,6 +429,9 @@ private:
 
   // -- widening points of the callgraph (extracted from *all* entries' WTOs)
   std::set<callgraph_node_t> m_widening_set;
+  // -- all the callgraph nodes that belong to some WTO cycle
+  //    (extracted from *all* entries' WTOs)
+  std::set<callgraph_node_t> m_recursive_set;
   // -- map each callgraph entry to its WTO
   wto_cg_map_t m_wto_cg_map;
   // -- to break cycles if no precise support for recursive functions
@@ -587,6 +590,12 @@ public:
 
   const std::set<callgraph_node_t> &get_widening_set() const {
     return m_widening_set;
+  }
+
+  std::set<callgraph_node_t> &get_recursive_set() { return m_recursive_set; }
+
+  const std::set<callgraph_node_t> &get_recursive_set() const {
+    return m_recursive_set;
   }
 
   // Return the current entry node of the analysis
@@ -1320,12 +1329,49 @@ private:
         (m_ctx.analyze_recursive_functions() &&
          m_ctx.get_widening_set().count(callee_cg_node) > 0);
 
+    // Whether the analysis of the callee can start from the calling
+    // context or it must start from top.
+    auto propagate_from_caller = [this](const cg_node_t &callee) {
+      if (m_ctx.get_recursive_set().count(callee) <= 0) {
+        // the callee does not belong to any call graph cycle.
+        return true;
+      }
+      if (!m_ctx.analyze_recursive_functions()) {
+        // If we do not analyze precisely recursive functions then
+        // we must start the analysis of a recursive procedure
+        // without propagating from caller to callee (i.e., top).
+        // This must be done for all the functions of a call graph
+        // cycle and not only for its head: the analysis visits the
+        // callsites in program order so it can enter the cycle
+        // through any of its functions, and the recursive calls to a
+        // function whose analysis has not finished are skipped.
+        return false;
+      }
+      if (m_ctx.get_widening_set().count(callee) > 0) {
+        // the fixpoint of the callee takes care of its recursive calls.
+        return true;
+      }
+      // The callee is in a call graph cycle but it is not its
+      // head. Its recursive calls are taken into account only by the
+      // fixpoints of the heads of the cycles that contain the callee
+      // so they must be running.
+      boost::optional<typename global_context_t::wto_cg_nesting_t> nesting_opt =
+          m_ctx.get_wto_cg_map()[m_ctx.get_current_entry()]->nesting(callee);
+      if (!nesting_opt) {
+        return false;
+      }
+      auto &func_fixpoint_table = m_ctx.get_func_fixpoint_table();
+      for (auto it = (*nesting_opt).begin(), et = (*nesting_opt).end();
+           it != et; ++it) {
+        if (func_fixpoint_table.find(*it) == func_fixpoint_table.end()) {
+          return false;
+        }
+      }
+      return true;
+    };
+
     AbsDom callee_entry = m_absval_fac.make_top();
-    if (m_ctx.analyze_recursive_functions() ||
-	m_ctx.get_widening_set().count(callee_cg_node) <= 0) {
-      // If we do not analyze precisely recursive functions then we
-      // must start the analysis of a recursive procedure without
-      // propagating from caller to callee (i.e., top).
+    if (propagate_from_caller(callee_cg_node)) {
       callee_entry = get_callee_entry(cs, fdecl, caller_dom, m_absval_fac.make_top());
     }
 
@@ -1757,15 +1803,25 @@ private:
     using wto_cycle_t = typename wto_cg_t::wto_cycle_t;
     using widening_set_t = std::set<typename CallGraph::node_t>;
     widening_set_t &m_widening_set;
-    widening_set_builder(widening_set_t &widening_set)
-        : m_widening_set(widening_set) {}
+    widening_set_t &m_recursive_set;
+    unsigned m_depth;
+    widening_set_builder(widening_set_t &widening_set,
+                         widening_set_t &recursive_set)
+        : m_widening_set(widening_set), m_recursive_set(recursive_set),
+          m_depth(0) {}
     virtual void visit(wto_cycle_t &cycle) override {
       m_widening_set.insert(cycle.head());
+      m_recursive_set.insert(cycle.head());
+      ++m_depth;
       for (auto &wto_component : cycle) {
         wto_component.accept(this);
       }
+      --m_depth;
     }
     virtual void visit(wto_vertex_t &vertex) override {
+      if (m_depth > 0) {
+        m_recursive_set.insert(vertex.node());
+      }
     }
   };
 
@@ -1847,7 +1903,8 @@ public:
     auto &wto_cg_map = m_ctx.get_wto_cg_map();
     for (auto entry : entries) {
       std::unique_ptr<wto_cg_t> wto_cg(new wto_cg_t(m_cg, entry));
-      widening_set_builder widen_builder(widening_set);
+      widening_set_builder widen_builder(widening_set,
+                                         m_ctx.get_recursive_set());
       wto_cg->accept(&widen_builder);
       CRAB_VERBOSE_IF(1, get_msg_stream() << "Call graph WTO for entry "
                                           << entry << "=" << *wto_cg << "\n";);
